@@ -100,6 +100,10 @@ MUTANTS = [
          old='        const std::scoped_lock lock(m_queue.m_mutex);\n        m_queue.m_stop = true;', new='        std::unique_lock lock(m_queue.m_mutex);\n        m_queue.m_condition.wait(lock, [&] { return m_queue.m_tasks.empty(); });\n        m_queue.m_stop = true;', also=[("include/nano/core/parallel.h", "        m_condition.notify_one();", "        m_condition.notify_all();")]),
     dict(property="C20", name="percentile-select-once-reads-neighbour", rule="R-C20-3", file="include/nano/core/stats.h", tu="src/wlearner/util.cpp",
          old='    if (lpos == rpos)\n    {\n        return from_position(lpos);\n    }\n    else\n    {\n        const auto lvalue = from_position(lpos);\n        const auto rvalue = from_position(rpos);\n        return (lvalue + rvalue) / 2;\n    }', new='    const auto left   = from_position(lpos);\n    const auto lvalue = static_cast<double>(*left);\n    if (lpos == rpos)\n    {\n        return lvalue;\n    }\n    else\n    {\n        const auto rvalue = static_cast<double>(*std::next(left));\n        return (lvalue + rvalue) / 2;\n    }', more=[('        std::nth_element(begin, middle, end);\n        return static_cast<double>(*middle);', '        std::nth_element(begin, middle, end);\n        return middle;'), ('        std::advance(middle, pos);\n        return static_cast<double>(*middle);', '        std::advance(middle, pos);\n        return middle;')]),
+    dict(property="C04", name="reduce-keeps-kernel-dimension-rows", rule="R-C04-11", file="src/program/util.cpp",
+         old='    A = U.transpose().block(0, 0, dd.rank(), U.rows()) * L.transpose() * P;', new="    A = U.transpose().block(0, 0, dd.dimensionOfKernel(), U.rows()) * L.transpose() * P;"),
+    dict(property="C04", name="reduce-keeps-rank-minus-one-rows", rule="R-C04-11", file="src/program/util.cpp",
+         old='    A = U.transpose().block(0, 0, dd.rank(), U.rows()) * L.transpose() * P;', new="    A = U.transpose().block(0, 0, dd.rank() - 1, U.rows()) * L.transpose() * P;"),
     dict(property="C17", name="stop-set-outside-lock", rule="R-C17-1", file="src/core/parallel.cpp",
          old="""    {
         const std::scoped_lock lock(m_queue.m_mutex);
@@ -1291,6 +1295,8 @@ BENIGN = [
          old="const auto threshold = 0.5 * (ivalue1.first + ivalue2.first);", new="const auto threshold = ivalue1.first + (ivalue2.first - ivalue1.first) / 2.0;"),
     dict(property="C10", name="stump-midpoint-other-spelling", file="src/wlearner/stump.cpp",
          old="cache.m_threshold       = 0.5 * (ivalue1.first + ivalue2.first);", new="cache.m_threshold       = (ivalue1.first + ivalue2.first) / 2.0;"),
+    dict(property="C04", name="reduce-rank-named-toprows", file="src/program/util.cpp",
+         old='    A = U.transpose().block(0, 0, dd.rank(), U.rows()) * L.transpose() * P;', new="    const auto rank = dd.rank();\n    const auto Ut   = U.transpose().eval();\n    A = Ut.topRows(rank) * L.transpose() * P;"),
     dict(property="C07", name="get-descent-test-inlined", file="src/lsearchk.cpp",
          old="    if (!state.has_descent(descent))", new="    if (const auto dg0 = state.dg(descent); !(dg0 < 0.0))"),
     dict(property="C07", name="lemarechal-swap-operands", file="src/lsearchk/lemarechal.cpp",
